@@ -27,10 +27,13 @@ DECIDED = [
     'nodes 0 and 1; entry i: the parabola through nodes i-1, i, i+1), entries land at the index of their middle node, '
     'and the selector evaluates c + b m + a m^2 of one and the same entry',
     'R3 drag_by_mach = Cd * K / BC with K within 1e-4 of standard density * pi / (8 * 144); BC, table, curve and Mach '
-    'nodes all come from shot.ammo.dm on every entry',
+    'nodes all come from shot.ammo.dm on every entry; the Mach node list is the table\'s Mach column in order',
+    'R4 the selector\'s bisection: the loop runs while hi - lo > 1, one step replaces lo by the middle index when the '
+    'middle node is below the query and hi otherwise (the query stays bracketed), and the entry evaluated is the one at '
+    'lo or at hi - whose nodes (R2) include both neighbours of the query',
 ]
-NOT_DECIDED = ['that the binary search selects the entry nearest to the query (an off-by-one there is invisible to this '
-               'analysis); positivity and the 5 % band between nodes (numerics)']
+NOT_DECIDED = ['termination of the bisection and its behaviour for queries below the first node as numbers; positivity and '
+               'the 5 % band between nodes (numerics)']
 
 REF = os.path.join(os.path.dirname(os.path.dirname(os.path.abspath(__file__))), 'spec', 'drag_tables_ref.json')
 
@@ -327,6 +330,133 @@ def check_curve(prog: Program, rep, rule: str) -> None:
         raise AnalysisError('calculate_curve: loop bound not readable')
 
 
+def check_search(prog: Program, rep, rule: str) -> None:
+    """The selector's bisection: one transition of the loop keeps the query bracketed between the Mach nodes at
+    (lo, hi), the loop runs while hi - lo > 1, and the entry returned is the one at lo or at hi.  Entry m passes
+    through nodes m-1, m, m+1 (R2), so both neighbours of the query are among its nodes."""
+    tc = prog.module(C.M_TC)
+    sel = prog.func(C.M_TC, '_calculate_by_curve_and_mach_list')
+    ml_p, curve_p, q_p = sel.positional[:3]
+    loops = [s_ for s_ in sel.node.body if isinstance(s_, ast.While)]
+    if len(loops) != 1:
+        raise AnalysisError('selector: expected one bisection loop')
+    loop = loops[0]
+    ev = Evaluator(prog)
+    ctx = Ctx(tc, sel, None, 0)
+    # names of the two bounds: the names in the loop condition
+    bnames = sorted({n.id for n in ast.walk(loop.test) if isinstance(n, ast.Name)})
+    if len(bnames) != 2:
+        raise AnalysisError(f'selector: loop condition reads {bnames}')
+    st = State({ml_p: SymObj('ml'), curve_p: SymObj('curve'), q_p: S('q')})
+    lo_n = hi_n = None
+    pre = sel.node.body[:sel.node.body.index(loop)]
+    t0 = ev.exec_block(pre, st, ctx)
+    if not isinstance(t0, Leaf):
+        raise AnalysisError('selector: branching before the loop')
+    for n in bnames:
+        v = t0.state.env.get(n)
+        if isinstance(v, Scalar) and v.rf.is_const():
+            lo_n = n
+        elif isinstance(v, Scalar):
+            hi_n = n
+    if lo_n is None or hi_n is None:
+        raise AnalysisError('selector: cannot tell the lower from the upper bound')
+    lo, hi, q = A.sym('lo'), A.sym('hi'), A.sym('q')
+    problems = []
+    # loop condition: hi - lo > 1
+    tv = ev.eval(loop.test, State({lo_n: S('lo'), hi_n: S('hi')}), ctx)
+    if not (isinstance(tv, Cond) and tv.test.kind == 'pos' and tv.test.rf.equals(hi - lo - 1) and isinstance(tv.a, Const)
+            and tv.a.value is True):
+        problems.append(f'the loop runs while `{norm(loop.test)}`; a bracket of adjacent nodes needs `hi - lo > 1`')
+    # one transition
+    st1 = State({ml_p: SymObj('ml'), curve_p: SymObj('curve'), q_p: S('q'), lo_n: S('lo'), hi_n: S('hi')})
+    try:
+        tree = ev.exec_block(loop.body, st1, ctx)
+    except Undecided as exc:
+        raise AnalysisError(f'selector loop body: {exc}') from exc
+    mid = A.fn('floordiv', hi + lo, 2)
+    seen = {'below': False, 'notbelow': False}
+    for path, leaf in leaves(tree):
+        e = leaf.state.env
+        l1, h1 = e.get(lo_n), e.get(hi_n)
+        below = None
+        for t, pol in path:
+            node_mid = A.sym(f'ml[{mid!r}]')
+            if t.kind == 'pos' and t.rf.equals(q - node_mid):
+                below = pol                 # ml[mid] < q
+            elif t.kind == 'nonneg' and t.rf.equals(q - node_mid):
+                below = pol                 # ml[mid] <= q   (bracket [lo, hi): equally sound)
+            elif t.kind == 'nonneg' and t.rf.equals(node_mid - q):
+                below = not pol
+            elif t.kind == 'pos' and t.rf.equals(node_mid - q):
+                below = not pol
+            else:
+                problems.append(f'the bisection step depends on {t!r}: not a comparison of the query with the middle node '
+                                f'ml[(lo + hi) // 2]')
+        if below is None:
+            continue
+        if not (isinstance(l1, Scalar) and isinstance(h1, Scalar)):
+            problems.append('bounds are not numbers after a step')
+            continue
+        if below:
+            seen['below'] = True
+            if not (l1.rf.equals(mid) and h1.rf.equals(hi)):
+                problems.append(f'when the middle node is below the query the bounds become ({l1.rf!r}, {h1.rf!r}); '
+                                f'keeping the query bracketed needs (mid, hi)')
+        else:
+            seen['notbelow'] = True
+            if not (l1.rf.equals(lo) and h1.rf.equals(mid)):
+                problems.append(f'when the middle node is not below the query the bounds become ({l1.rf!r}, {h1.rf!r}); '
+                                f'keeping the query bracketed needs (lo, mid)')
+    if not all(seen.values()):
+        problems.append('the bisection step does not compare the query with the middle node in both directions')
+    # after the loop: the entry returned is the one at lo or at hi
+    post = sel.node.body[sel.node.body.index(loop) + 1:]
+    st2 = State({ml_p: SymObj('ml'), curve_p: SymObj('curve'), q_p: S('q'), lo_n: S('lo'), hi_n: S('hi')})
+    t2 = ev.exec_block(post, st2, ctx)
+    for path, leaf in leaves(t2):
+        if leaf.kind != 'return' or not isinstance(leaf.value, Scalar):
+            continue
+        names = {repr(v) for v in (leaf.value.rf.coeffs_in('q') or {}).values()}
+        ent = {n.rsplit('.', 1)[0] for n in names if n.startswith('curve[')}
+        if not ent <= {'curve[lo]', 'curve[hi]'} or len(ent) != 1:
+            problems.append(f'the entry evaluated after the search is {sorted(ent)}, not the one at a bracketing node')
+    if problems:
+        rep.fail(rule, tc.path, loop.lineno, sel.qualname, 'bisection', '; '.join(sorted(set(problems))[:3]))
+    else:
+        rep.ok(rule, tc.where(loop), 'bisection: while hi - lo > 1; ml[mid] < q -> (mid, hi) else (lo, mid)')
+        rep.ok(rule, tc.where(loop), 'the entry returned is the one at lo or at hi: its nodes include both neighbours of the query')
+
+
+def check_mach_list(prog: Program, rep, rule: str) -> None:
+    """_get_only_mach_data: the Mach nodes, in table order, one per table entry."""
+    tc = prog.module(C.M_TC)
+    f = prog.func(C.M_TC, '_get_only_mach_data')
+    rep.saw(f)
+    p = f.positional[0]
+    ok = False
+    rets = [r for r in ast.walk(f.node) if isinstance(r, ast.Return)]
+    loops = [s_ for s_ in f.node.body if isinstance(s_, ast.For)]
+    if len(rets) == 1 and isinstance(rets[0].value, ast.ListComp):
+        c = rets[0].value
+        g = c.generators[0]
+        ok = len(c.generators) == 1 and not g.ifs and norm(g.iter) == p and isinstance(g.target, ast.Name) \
+            and norm(c.elt) == f'{g.target.id}.Mach'
+    elif len(loops) == 1 and len(rets) == 1 and isinstance(rets[0].value, ast.Name):
+        lp = loops[0]
+        res = rets[0].value.id
+        body_ok = len(lp.body) == 1 and isinstance(lp.body[0], ast.Expr) and isinstance(lp.target, ast.Name) \
+            and norm(lp.body[0].value) == f'{res}.append({lp.target.id}.Mach)'
+        init_ok = any(isinstance(s_, ast.Assign) and norm(s_) == f'{res} = []' for s_ in f.node.body)
+        ok = norm(lp.iter) == p and body_ok and init_ok and not lp.orelse
+    if ok:
+        rep.ok(rule, f.where, 'Mach nodes = [entry.Mach for entry in table], in table order')
+    else:
+        rep.fail(rule, tc.path, f.node.lineno, f.qualname, 'mach-list',
+                 'the list of Mach nodes is not the Mach of every table entry in table order: the selector searches '
+                 'different nodes than the curve was built from')
+
+
 def check_bc(prog: Program, rep, rule: str) -> None:
     tc = prog.module(C.M_TC)
     tcc = prog.cls(C.M_TC, 'TrajectoryCalc')
@@ -395,10 +525,13 @@ def run(prog: Program, rep, thorough: bool) -> None:
     A.reset()
     rep.rule('C09.R1', 'shipped tables literal, ascending from 0, equal to the reference, never written', 9 + 2)
     rep.rule('C09.R2', 'curve entries interpolate their nodes; selector form and index range', 4)
-    rep.rule('C09.R3', 'BC definition and wiring', 5)
+    rep.rule('C09.R3', 'BC definition and wiring', 6)
+    rep.rule('C09.R4', 'bisection keeps the query bracketed; entry at a bracketing node', 2)
     check_tables(prog, rep, 'C09.R1')
     check_curve(prog, rep, 'C09.R2')
     check_bc(prog, rep, 'C09.R3')
+    check_mach_list(prog, rep, 'C09.R3')
+    check_search(prog, rep, 'C09.R4')
 
 
 TCF = 'py_ballisticcalc/trajectory_calc/_trajectory_calc.py'
@@ -416,6 +549,11 @@ VARIANTS = [
     Variant('loop-starts-at-zero', 'break', [(TCF, 'for i in range(1, len_data_range):', 'for i in range(0, len_data_range):')], 'C09.R2', 'entries shifted by one index'),
     Variant('table-sorted-by-api', 'break', [(DMF, 'def make_data_points(drag_table: DragTableDataType) -> List[DragDataPoint]:\n    """Convert drag table from list of dictionaries to list of DragDataPoints"""\n', 'def make_data_points(drag_table: DragTableDataType) -> List[DragDataPoint]:\n    """Convert drag table from list of dictionaries to list of DragDataPoints"""\n    from py_ballisticcalc.drag_tables import TableG1\n    TableG1.sort(key=lambda p: p["Mach"])\n')], 'C09.R1'),
     Variant('bc-from-constant', 'break', [(TCF, 'self._bc: float = shot_info.ammo.dm.BC', 'self._bc: float = 1.0')], 'C09.R3'),
+    Variant('bisection-skips-middle', 'break', [(TCF, '        if mach_list[mid] < mach:\n            mlo = mid\n        else:\n            mhi = mid\n\n    if mach_list[mhi] - mach', '        if mach_list[mid] < mach:\n            mlo = mid + 1\n        else:\n            mhi = mid\n\n    if mach_list[mhi] - mach')], 'C09.R4', 'bracket lost when the query lies just above a middle node'),
+    Variant('bisection-stops-early', 'break', [(TCF, '    while mhi - mlo > 1:\n        mid = (mhi + mlo) // 2\n        if mach_list[mid] < mach:', '    while mhi - mlo > 2:\n        mid = (mhi + mlo) // 2\n        if mach_list[mid] < mach:')], 'C09.R4', 'entry two nodes away from the query'),
+    Variant('entry-one-below', 'break', [(TCF, '    curve_m = curve[m]\n    return curve_m.c', '    curve_m = curve[max(m - 1, 0)]\n    return curve_m.c')], 'C09.R4'),
+    Variant('mach-list-sorted-desc', 'break', [(TCF, '    for dp in data:\n        result.append(dp.Mach)\n    return result', '    for dp in data:\n        result.append(dp.Mach)\n    return result[::-1]')], 'C09.R3'),
+    Variant('twin-bisection-le', 'twin', [(TCF, '        if mach_list[mid] < mach:\n            mlo = mid\n        else:\n            mhi = mid\n\n    if mach_list[mhi] - mach', '        if mach_list[mid] <= mach:\n            mlo = mid\n        else:\n            mhi = mid\n\n    if mach_list[mhi] - mach')], None, 'bracket [lo, hi) instead of (lo, hi]'),
     Variant('twin-table-floats-respelled', 'twin', [(DT, "{'Mach': 0.20, 'CD': 0.2344},", "{'Mach': 0.2, 'CD': 0.23440},")], None),
     Variant('twin-curvepoint-keywords', 'twin', [(TCF, 'curve_point = CurvePoint(a, b, c)\n        curve.append(curve_point)', 'curve.append(CurvePoint(c=c, b=b, a=a))')], None),
 ]
